@@ -83,13 +83,18 @@ class Replay:
                           {"kind": "program", "program": prog, "expected": sorted(exp), "cats": sorted(self.cats or []),
                            "cfg": cfg, "scenario": meta, "fail": r["fail"][:3000]})
             reported += 1
+        nonrepro = []
+        tried = 0
         for (prog, exp, meta), got in self.mismatches:
-            if reported >= max_report:
+            if reported >= max_report or tried >= 25:
                 break
+            tried += 1
             r = proglib.run_vh(ctx, [prog], cfg=cfg)[prog["id"]]
             got2 = project(r["diags"]) if project else proglib.keyset(r["diags"], cats=self.cats)
             if r.get("fail") or r.get("err") or got2 == exp:
-                raise vlib.ToolError("mismatch did not reproduce for %s (first %s, now %s)" % (prog["id"], got, sorted(got2)))
+                # not reproducible in a process of its own: state leaking between the programs of a batch, or flakiness
+                nonrepro.append("%s (first %s, alone %s)" % (prog["id"], got, sorted(got2)))
+                continue
             if known:
                 kf = known(meta, exp, got2)
                 if kf:
@@ -102,6 +107,8 @@ class Replay:
                           {"kind": "program", "program": prog, "expected": sorted(exp), "observed": sorted(got2),
                            "cats": sorted(self.cats or []), "cfg": cfg, "scenario": meta})
             reported += 1
+        if nonrepro and not reported:
+            raise vlib.ToolError("%d mismatches did not reproduce alone, e.g. %s" % (len(nonrepro), nonrepro[0][:600]))
         return reported
 
 
